@@ -62,6 +62,17 @@ Input classes beyond the random histories
                  every argument) and point_along with exactly-zero, negative
                  and linspace(0, L, k) distances (seeded changes C11-r6-1,
                  C11-r6-3).
+  setters        the documented setter-style entry points (model-coordinate
+                 setters with data, coords(model, data), projective / affine
+                 coordinates with data, set()) applied to an EXISTING object:
+                 derived data is that of the new primary data (seeded change
+                 C11-r7-1).
+  inherited queries  the Point queries multi-point objects inherit (origin_to,
+                 distance, unit_tangent_towards, model coordinates) on
+                 segments, geodesics, point pairs and polygons; judged as the
+                 property states it: the geometric points are unchanged
+                 (projectively) -- the pinned library renormalises in place,
+                 so bit-identity is not demanded (seeded change C11-r7-3).
 """
 import copy
 import os
@@ -107,6 +118,9 @@ ASSUMPTIONS = [
     "a recomputation type(obj)(obj.proj_data).aux_data that is not finite although the "
     "stored derived data is finite, for separated interior endpoints (segments) or an "
     "interior base point (tangent vectors), is a stored-vs-recomputed mismatch",
+    "a setter call (coordinates in a model with data, coords(model, data), set(data)) on "
+    "an existing object replaces its primary data by the given points; afterwards the "
+    "derived data is that of the new primary data",
     "an operation other than copy.copy returns an object that owns its data: editing the "
     "result by item assignment neither moves nor de-synchronises any object it was "
     "derived from (also when the operation is geometrically the identity)",
@@ -609,7 +623,16 @@ OPS = ["copy", "deepcopy", "class-copy", "apply", "apply-composite", "apply-pair
 # of wl_history, whose case stream stays what it was)
 EXTRA_OPS = ["flatten-unit", "flatten-aux", "query-normalising", "apply-given", "setitem-unit",
              "apply-identity", "same-astype", "same-reshape", "full-index", "iterate",
-             "iterate-siblings", "setitem-all"]
+             "iterate-siblings", "setitem-all", "reset-coords"]
+SETTERS = {
+    "tangent": ["set", "projective_coords", "coords:projective", "hyperboloid_coords",
+                "coords:hyperboloid"],
+    "hyperbolic": ["kleinian_coords", "coords:klein", "poincare_coords", "coords:poincare",
+                   "halfspace_coords", "coords:halfspace", "hyperboloid_coords",
+                   "coords:hyperboloid", "projective_coords", "coords:projective", "set",
+                   "affine_coords"],
+    "projective": ["set", "projective_coords", "affine_coords", "affine_coords:1"],
+}
 IDENTITIES = ["module-identity", "rep-empty-word", "rotation-by-0", "A@A.inv", "composite-identity",
               "integer-identity", "matmul-module-identity"]
 
@@ -863,6 +886,11 @@ def do_queries(rng, obj, kind):
             if kind == "H.Polygon":
                 obj.coords("klein")
                 obj.coords("projective")
+                if q == 1:
+                    # Point queries a polygon inherits (one frame / distance per
+                    # vertex): the vertices stay where they are (C11-r7-3)
+                    obj.origin_to()
+                    obj.distance(H.Point(np.array(obj.proj_data, copy=True)))
                 v = obj.get_vertices()
                 v.coords(("poincare", "hyperboloid", "klein", "halfspace")[q])
                 if obj.dimension == 2 and q % 2:
@@ -881,6 +909,17 @@ def do_queries(rng, obj, kind):
             a, b = obj.get_end_pair(as_points=True)
             a.distance(b)
             a.origin_to()
+            # ... and the Point queries the segment itself inherits (C11-r7-3:
+            # a frame completion running in place on the endpoint rows)
+            if q % 2:
+                obj.origin_to()
+            else:
+                obj.distance(H.Point(np.array(obj.proj_data, copy=True)))
+                pdq = np.asarray(obj.proj_data)
+                if pdq.dtype.kind in "iuf" and np.all(np.isfinite(pdq)) and \
+                        np.all(rh.kind(pdq.astype(float), margin=1e-6) == "interior"):
+                    # (a unit tangent at an ideal / exterior base point is out of domain)
+                    obj.unit_tangent_towards(H.Point(np.array(pdq[..., ::-1, :], copy=True)))
         elif kind == "H.TangentVector":
             obj.normalized()
             obj.origin_to()
@@ -947,9 +986,11 @@ NORMALISING = {
     "H.TangentVector": ["origin_to", "hyperboloid_coords", "isometry_to", "point_along",
                         "coords:hyperboloid", "normalized+angle"],
     "H.Segment": ["hyperboloid_coords", "endpoints:distance+origin_to", "coords:poincare",
-                  "ideal_endpoint_coords", "coords:hyperboloid", "geodesic"],
+                  "ideal_endpoint_coords", "coords:hyperboloid", "geodesic", "origin_to",
+                  "distance:self"],
     "H.Polygon": ["hyperboloid_coords", "vertices:origin_to+distance", "coords:poincare",
-                  "edges:ideal_endpoint_coords", "coords:hyperboloid"],
+                  "edges:ideal_endpoint_coords", "coords:hyperboloid", "origin_to",
+                  "distance:self"],
     "P.Polygon": ["projective_coords", "affine_coords", "edges:get_end_pair"],
 }
 
@@ -965,6 +1006,9 @@ def normalising_query(obj, kind, which):
             obj.origin_to()
         elif name == "hyperboloid_coords":
             obj.hyperboloid_coords()
+        elif name == "distance:self":
+            from geometry_tools import hyperbolic as H
+            obj.distance(H.Point(np.array(obj.proj_data, copy=True)))
         elif name == "isometry_to":
             obj.isometry_to(obj)
         elif name == "point_along":
@@ -1140,6 +1184,51 @@ def apply_step(run, rng, op, obj, model, step):
             return items[i], models[i], "ok"
         _state["extra_relatives"] = list(zip(items, models))[:3]
         return obj, model, "ok"
+    if op == "reset-coords":
+        # a setter-style entry point on the EXISTING object: new primary data,
+        # given in some model; the derived data must be recomputed from it
+        # (seeded change C11-r7-1: the affine-chart setter hands the old
+        # aux_data to set(), which then keeps it)
+        from ..ref import circles as rc
+        raw = draw_value(rng, kind, n, shape, nv=model.prim.shape[-2] if "Polygon" in kind else None)
+        new = np.asarray(G.primary(kind, raw), dtype=float)
+        table = SETTERS["tangent" if kind == "H.TangentVector" else
+                        "hyperbolic" if hyp else "projective"]
+        base = _state.get("setter")
+        name = table[(int(rng.integers(0, 60)) if base is None else base + step) % len(table)]
+        if isinstance(_state.get("history"), dict):
+            _state["history"].setdefault("setters", []).append(name)
+        mname, _, arg = name.partition(":")
+        if kind == "H.TangentVector":
+            data = np.array(new, copy=True)
+            if "hyperboloid" in name:
+                data[..., 0, :] = rh.hyperboloid_pos(new[..., 0, :])
+        elif not hyp:
+            ch = 1 if arg == "1" else 0
+            data = np.array(new, copy=True) if mname != "affine_coords" else \
+                np.delete(new, ch, axis=-1) / new[..., ch:ch + 1]
+        else:
+            mdl = arg or {"kleinian_coords": "klein", "poincare_coords": "poincare",
+                          "halfspace_coords": "halfspace", "affine_coords": "klein"}.get(mname, mname)
+            if mdl in ("klein", "poincare", "halfspace"):
+                data = rc.model_of_proj(new, mdl)
+            elif mdl in ("hyperboloid", "hyperboloid_coords"):
+                data = rh.hyperboloid_pos(new)
+            else:
+                data = np.array(new, copy=True)
+        data0 = np.array(data, copy=True)
+        if mname == "coords":
+            obj.coords(arg, data)
+        elif mname == "affine_coords" and not hyp:
+            obj.affine_coords(data, chart_index=1 if arg == "1" else 0)
+        else:
+            getattr(obj, mname)(data)
+        run.monitor("query-purity").require(
+            np.array_equal(data, data0), "query-purity/setter-argument-changed/%s" % mname,
+            "%s(data) wrote into the caller's data array" % name, case)
+        m2 = copy.copy(model)
+        m2.prim = new
+        return obj, m2, "ok"
     if op == "setitem-all":
         # obj[...] = value: every unit replaced (works on a unit object too)
         raw = draw_value(rng, kind, n, shape, nv=model.prim.shape[-2] if "Polygon" in kind else None)
@@ -1640,6 +1729,25 @@ def wl_identity_maps(run, rng, idx):
         _state["history"] = None
 
 
+def wl_setters(run, rng, idx):
+    """setter-style entry points on existing objects with derived data, twice,
+    with queries and another operation between them (seeded change C11-r7-1)."""
+    kind = HKINDS[idx % len(HKINDS)]
+    shape = [(3,), (), (2, 3)][(idx // 4) % 3]
+    n = 2 + (idx // 12) % 3
+    route = ROUTES[(idx // 3) % len(ROUTES)]
+    ops = ["reset-coords", "query", SU_POST[(idx // 4) % len(SU_POST)], "reset-coords", "query"]
+    _state["history"] = {"kind": kind, "dimension": n, "shape": list(shape), "route": route,
+                         "ops": ops}
+    _state["setter"] = idx // 4
+    run.current_case = _state["history"]
+    try:
+        run_history(run, rng, kind, n, shape, route, ops, note=("setters",))
+    finally:
+        _state.pop("setter", None)
+        _state["history"] = None
+
+
 def wl_integer_primary(run, rng, idx):
     """objects built from INTEGER-typed primary data: the derived data is
     fractional in general and must not be truncated to the primary data's dtype
@@ -1759,6 +1867,15 @@ def wl_queries(run, rng, idx):
         elif kind in ("H.PointPair", "H.Segment", "H.Geodesic"):
             X.endpoint_coords("klein")
             X.get_end_pair()
+            # inherited Point queries, one per endpoint (seeded change C11-r7-3)
+            X.origin_to()
+            if kind != "H.Geodesic":
+                # (distances / tangents between ideal points are out of domain)
+                Y = G.build(kind, G.draw(rng, kind, n, shape))
+                X.distance(Y)
+                X.unit_tangent_towards(Y)
+            X.coords("poincare")
+            X.origin_to(force_oriented=False)
             if kind != "H.PointPair":
                 X.ideal_basis_coords("klein")
                 X.sphere_parameters("poincare")
@@ -1788,6 +1905,10 @@ def wl_queries(run, rng, idx):
             X.get_edges()
             X.get_vertices()
             X.coords("klein")
+            X.origin_to()
+            X.distance(H.Point(np.array(X.proj_data, copy=True)))
+            X.coords("poincare")
+            X.get_edges().origin_to()
         elif kind in ("H.Horosphere", "H.HorosphereArc"):
             X.sphere_parameters("poincare")
             X.center_coords("klein")
@@ -1816,7 +1937,7 @@ def wl_queries(run, rng, idx):
 
 
 WORKLOADS = [
-    Workload("history", wl_history, quick=500, thorough=16000),
+    Workload("history", wl_history, quick=460, thorough=16000),
     Workload("setitem-combine", wl_setitem_combine, quick=200, thorough=3000),
     Workload("queries", wl_queries, quick=190, thorough=2850),
     Workload("integer-primary", wl_integer_primary, quick=48, thorough=960),
@@ -1825,4 +1946,5 @@ WORKLOADS = [
     Workload("special-positions", wl_special_positions, quick=72, thorough=1728),
     Workload("setitem-unit", wl_setitem_unit, quick=56, thorough=1536),
     Workload("identity-maps", wl_identity_maps, quick=60, thorough=1680),
+    Workload("setters", wl_setters, quick=40, thorough=1152),
 ]
